@@ -24,6 +24,14 @@ chk("C04","exploration",
     "Reference-model differential at the client boundary on the running server: random histories of publishes, soft/hard deletes with generated range lists (unsorted, overlapping, nested, adjacent, touching, duplicated, singles, bounds beyond the last id, invalid lists), history queries with absent/zero/inverted/beyond-last bounds and limits, deletion-log queries and unsubscribe/resubscribe, by owner / member / member with D / member without R; every answer and every MessageDeleteList argument is compared with an independent model. RangeSorter.Normalize additionally gets an exhaustive small-scope run (all lists of <=3 well-formed ranges over 1..8/1..10).",
     "vfmem mirrors the messages/dellog contract; the SQL BETWEEN arithmetic of the real adapters is not exercised; limits above the adapter maximum (100) are checked against vfmem's maximum.",
     "reference-model differential over recorded answers + exhaustive small-scope enumeration","sim","DESIGN.md 3/C04")
+chk("C06","exploration",
+    "Whole-server runs: a group topic with owner/admin/member/candidate/sharer/stranger is driven through a directed prefix reaching the interesting ownership states and then 8-21 random metadata requests with idle unload/reload between steps; after every step, at logical quiescence, the subscription rows and the topic row in the store are checked for exactly one effective owner named by topics.owner, for 'denied => nothing changed', for ownership moving only by acceptance of an offer made by the owner (with the previous owner losing O in the same step), and for the owner-only operations.",
+    "vfmem mirrors the adapter contract; requests are sequential (one outstanding at a time); concurrent ownership races are not explored.",
+    "invariant monitor over store rows at quiescent points + step-attribution oracle","sim","DESIGN.md 3/C06")
+chk("C07","exploration",
+    "Same engine on group (subscriber limit 5) and p2p topics with arbitrary mode strings: every change between the before/after store rows of a step is attributed to the actor and judged against the authorisation rules of the property; bans and restrictions are driven through removal + re-subscription; p2p participant/mode bounds, sys/me/fnd admission and the subscriber limit are asserted after every step. Also carries the C05 wire clauses: mode = want & given on every acs object seen, and replay of {pres acs} notifications by a second session on 'me', by the owner's session in the topic and by a proxy Topic through updateAcsFromPresMsg must reproduce the stored modes.",
+    "vfmem mirrors the adapter contract; sequential requests; anonymous-level subscribers are exercised only on sys (C03).",
+    "row-diff attribution oracle + notification replay shadow tables","sim","DESIGN.md 3/C07")
 chk("C05","exploration",
     "Runtime oracle over the real AccessMode code: every one of the 256x256 permission pairs is pushed through Delta/ApplyDelta/ApplyMutation and every set through text/JSON/SQL round trips (finite core enumerated completely); all short strings over the mode alphabet plus junk are compared with an independent reference for the stated laws (unknown letters rejected and target unchanged, empty = no change, N = none). The on-the-wire intersection law and the notification-replay clause are monitored in the C07 engine runs and reported there.",
     "Reference parser in harness/types/c05.go is trusted; strings longer than 5 are sampled, not enumerated; proxy replay through updateAcsFromPresMsg is exercised by the sim engine (C07), not here.",
